@@ -1,11 +1,47 @@
-(* C01 — deciding obligations (statements only). *)
+(* C01 — deciding obligations (statements only, closed by lemmas proved elsewhere). *)
 From Coq Require Import List.
-From VF Require Import Base.RingOps Base.Mat Base.Tensor.
+From VF Require Import Base.RingOps Base.Mat Base.Tensor Base.TensorProofs Base.K8 Sim.Buffers.
 Import ListNotations.
 
-(* placeholder-free: the first obligation is the fold structure of the reference semantics:
-   running a concatenation is running the parts in order (so the result is the ordered product). *)
+(* running a concatenation is running the parts in order: the result is the ordered product *)
 Theorem C01_run_app : forall K (O : Ops K) sh (a b : list (rop (K:=K))) l,
   run_tab O sh (a ++ b) l = run_tab O sh b (run_tab O sh a l).
 Proof. intros. unfold run_tab. apply fold_left_app. Qed.
 Print Assumptions C01_run_app.
+
+(* operations on disjoint axes commute — any rank, any dimensions, any index *)
+Theorem C01_apply_commute_disjoint : forall K (O : Ops K), Laws O ->
+  forall U V d1 d2 a1 a2 (psi : tensor (K:=K)), (forall x, In x a1 -> ~ In x a2) ->
+  forall i, apply O U d1 a1 (apply O V d2 a2 psi) i = apply O V d2 a2 (apply O U d1 a1 psi) i.
+Proof. exact @apply_commute_disjoint. Qed.
+Print Assumptions C01_apply_commute_disjoint.
+
+(* hence the order inside a moment is irrelevant: adjacent independent operations may be swapped *)
+Theorem C01_run_swap_adjacent : forall K (O : Ops K), Laws O ->
+  forall l1 a b l2 (psi : tensor (K:=K)), disjoint_ops a b ->
+  forall i, run O (l1 ++ a :: b :: l2) psi i = run O (l1 ++ b :: a :: l2) psi i.
+Proof. exact @run_swap_adjacent. Qed.
+Print Assumptions C01_run_swap_adjacent.
+
+(* every operation acts linearly on the state (so its matrix determines it) *)
+Theorem C01_apply_linear : forall K (O : Ops K), Laws O ->
+  forall U d ax (p q : tensor (K:=K)) c i,
+  apply O U d ax (fun j => kadd O (kmul O c (p j)) (q j)) i
+  = kadd O (kmul O c (apply O U d ax p i)) (apply O U d ax q i).
+Proof. exact @apply_linear. Qed.
+Print Assumptions C01_apply_linear.
+
+(* the buffer-swapping loop of cirq.apply_unitaries returns the ordered product for every choice each
+   kernel makes between writing in place, into the scratch buffer or into a fresh array *)
+Theorem C01_buffers_refine_run : forall (T cell : Type) (cell_eqb : cell -> cell -> bool),
+  (forall a b, cell_eqb a b = true <-> a = b) ->
+  forall fs ks (m : mem T cell), Forall2 (kernel_ok T cell) fs ks -> state m <> buffer m ->
+  at_ (loop T cell cell_eqb ks m) (state (loop T cell cell_eqb ks m)) = fold_left (fun x f => f x) fs (at_ m (state m))
+  /\ state (loop T cell cell_eqb ks m) <> buffer (loop T cell cell_eqb ks m).
+Proof. exact buffers_refine_run. Qed.
+Print Assumptions C01_buffers_refine_run.
+
+(* the ring laws assumed above are satisfiable: the exact instance Q(zeta_8) *)
+Theorem C01_laws_inhabited : Laws K8Ops.
+Proof. exact K8Laws. Qed.
+Print Assumptions C01_laws_inhabited.
